@@ -122,11 +122,11 @@ def run(ctx):
     #    walk:  seeded random walks over the large alphabet
     if quick:
         runs = [("cover", "quick", 3, None, "all"), ("seq", "special", 2, None, "all"),
-                ("seq", "small", 4, None, "sampled"), ("seq", "multi", 3, None, "multi"),
+                ("seq", "small", 4, None, "sampled"), ("seq", "multi", 3, None, "multi"), ("seq", "flow", 4, None, "multi"),
                 ("walk", "thorough", 8, 400, "sampled")]
     else:
         runs = [("cover", "thorough", 3, None, "all"), ("cover", "deep", 4, None, "sampled"),
-                ("seq", "small12", 5, None, "sampled"), ("seq", "special", 3, None, "sampled"), ("seq", "multi", 3, None, "multi"),
+                ("seq", "small12", 5, None, "sampled"), ("seq", "special", 3, None, "sampled"), ("seq", "multi", 3, None, "multi"), ("seq", "flow", 5, None, "multi"),
                 ("walk", "thorough", 8, 4000, "sampled")]
     groups = {}
     for mode, alpha, depth, sim, how in runs:
